@@ -340,5 +340,594 @@ theorem finishCell_corr (es : List (Level × Entry)) (h : ∃ le ∈ es, le.2.co
   have h1 := fillUp_allSome (fillDown es) (fillDown_last es h) hne
   exact addAggregate_pres (fun _ e => e.corr.isSome = true) (fun _ _ _ h => h) 1 _ h1
 
+/-! ## the one-cell walk: what is written at each level -/
+
+/-- what the level loop writes at a level, before the post-loops and the flag -/
+def RawGood (nR : Nat) (nodes : List Node) (e : Entry) : Prop :=
+  e.assignment ∈ nodes ∧ RuOK nR nodes e
+
+theorem entryOf_assignment (v : Vote) : (entryOf v).assignment = v.assignment := by
+  unfold entryOf; split <;> rfl
+
+theorem entryOf_corr (v : Vote) : (entryOf v).corr = v.corr := by
+  unfold entryOf; split <;> rfl
+
+theorem ruOK_entryOf {nR : Nat} {nodes kids : List Node} {v : Vote}
+    (hsub : ∀ k ∈ kids, k ∈ nodes)
+    (hp : ∀ r, v.runnersUp = some r →
+      (r.filter (·.valid)).length ≤ nR ∧ ∀ x ∈ r, x.valid = true → x.node ∈ kids) :
+    RuOK nR nodes (entryOf v) := by
+  unfold entryOf
+  cases hr : v.runnersUp with
+  | none => exact ⟨[], [], [], rfl, rfl, rfl, Nat.zero_le _, by simp⟩
+  | some r =>
+    obtain ⟨h1, h2⟩ := hp r hr
+    refine ⟨_, _, _, rfl, by simp, by simp, by simpa using h1, ?_⟩
+    intro a ha
+    simp only [List.mem_map, List.mem_filter] at ha
+    obtain ⟨x, ⟨hx, hval⟩, rfl⟩ := ha
+    exact hsub _ (h2 x hx hval)
+
+/-- the dict written for one consulted parent with children `kids` -/
+theorem voteFn_entry {κ} {t : RawTree} {vote : Oracle κ} {nR : Nat}
+    (hpay : PayloadOK nR t vote) (p : Parent) (cl : Level) (kids : List Node) (c : κ)
+    (hkne : kids ≠ []) {nodes : List Node} (hsub : ∀ k ∈ kids, k ∈ nodes) :
+    RuOK nR nodes (entryOf (voteFn t vote p cl kids c)) ∧
+    ((∀ only, kids ≠ [only]) → (entryOf (voteFn t vote p cl kids c)).corr.isSome = true) := by
+  match kids, hkne with
+  | [only], _ =>
+    refine ⟨?_, fun h => absurd rfl (h only)⟩
+    exact ⟨[], [], [], rfl, rfl, rfl, Nat.zero_le _, by simp⟩
+  | a :: b :: rest, _ =>
+    have hpv := hpay p cl (a :: b :: rest) c (by simp)
+    simp only [voteFn]
+    exact ⟨ruOK_entryOf hsub hpv.2, fun _ => by rw [entryOf_corr]; exact hpv.1⟩
+
+theorem walkFrom_raw {κ} {t : RawTree} {vote : Oracle κ} {nR : Nat} (hwf : wfb t = true)
+    (hv : VoteOK t vote) (hpay : PayloadOK nR t vote) (c : κ) :
+    ∀ (ls pre : List Level) (p : Parent), t.hierarchy = pre ++ ls → At t pre p →
+      ∀ es, walkFrom t vote c ls p = .ok es →
+        (∀ le ∈ es, RawGood nR (t.nodesAt le.1) le.2) ∧
+        (choiceFrom t ls p = true → ∃ le ∈ es, le.2.corr.isSome = true)
+  | [], _, p, _, _, es, h => by
+    simp only [walkFrom] at h; cases h
+    exact ⟨by simp, by simp [choiceFrom]⟩
+  | cl :: rest, pre, p, hs, hat, es, h => by
+    have hpair : ∃ plo, (plo, cl) ∈ levelPairs t ∧ p ∈ parentNodeList t plo := by
+      rcases hat with ⟨rfl, rfl⟩ | ⟨pre', pl, n, rfl, rfl, hn⟩
+      · refine ⟨none, ?_, by simp [parentNodeList]⟩
+        unfold levelPairs; rw [hs]; simp
+      · refine ⟨some pl, ?_, (mem_parentNodeList_some t pl _).mpr ⟨n, hn, rfl⟩⟩
+        unfold levelPairs; rw [hs, List.append_assoc]
+        exact mem_zip_of_split pl cl rest pre' none
+    obtain ⟨plo, hmem, hp⟩ := hpair
+    have facts := levelOK_facts t plo cl (wfb_levelOK hwf hmem)
+    obtain ⟨kids, hkids, hkne, hsub⟩ := facts.kids p hp
+    have hkne' : kids.isEmpty = false := by
+      cases kids with
+      | nil => exact absurd rfl hkne
+      | cons a b => rfl
+    have hsub' : ∀ k ∈ kids, k ∈ t.nodesAt cl := by
+      intro k hk
+      obtain ⟨k', hk', he⟩ := (mem_parentNodeList_some t cl _).mp (hsub k hk)
+      cases he; exact hk'
+    have ha := voteFn_mem hv p cl kids c hkne
+    have hnode := hsub' _ ha
+    simp only [walkFrom, hkids, hkne', Bool.false_eq_true, if_false] at h
+    cases hrest : walkFrom t vote c rest (some (cl, (voteFn t vote p cl kids c).assignment)) with
+    | error e => rw [hrest] at h; cases h
+    | ok tl =>
+      rw [hrest] at h
+      cases h
+      obtain ⟨ih1, ih2⟩ := walkFrom_raw hwf hv hpay c rest (pre ++ [cl])
+        (some (cl, (voteFn t vote p cl kids c).assignment)) (by rw [hs]; simp)
+        (Or.inr ⟨pre, cl, _, rfl, rfl, hnode⟩) tl hrest
+      obtain ⟨hru, hcorr⟩ := voteFn_entry hpay p cl kids c hkne hsub'
+      refine ⟨?_, ?_⟩
+      · intro le hle
+        rcases List.mem_cons.mp hle with h1 | h1
+        · subst h1
+          exact ⟨by rw [entryOf_assignment]; exact hnode, hru⟩
+        · exact ih1 le h1
+      · intro hch
+        simp only [choiceFrom, kidsD_of_ok hkids] at hch
+        by_cases hone : ∃ only, kids = [only]
+        · obtain ⟨only, rfl⟩ := hone
+          simp only [voteFn, trivialVote] at ih2
+          obtain ⟨le, hle, hs'⟩ := ih2 hch
+          exact ⟨le, List.mem_cons_of_mem _ hle, hs'⟩
+        · exact ⟨_, List.mem_cons_self, hcorr (fun only he => hone ⟨only, he⟩)⟩
+
+/-- the finished walk of one cell: every level of the run's tree is bound, in
+order, to a dict that has a node of the level, numbers everywhere, and
+runner-up lists of equal length ≤ `n_runners_up` naming nodes of the level -/
+theorem walk_good {κ} {t : RawTree} {vote : Oracle κ} {nR : Nat} (hwf : wfb t = true)
+    (hv : VoteOK t vote) (hpay : PayloadOK nR t vote) (hch : hasChoice t = true) (c : κ) :
+    (walkD t vote c).map (·.1) = t.hierarchy ∧
+    ∀ le ∈ walkD t vote c, RawGood nR (t.nodesAt le.1) le.2 ∧
+      le.2.corr.isSome = true ∧ le.2.agg.isSome = true := by
+  obtain ⟨r, hr, hp⟩ := walk_path hwf hv c
+  have hwd : walkD t vote c = r := by simp [walkD, hr]
+  rw [hwd]
+  refine ⟨hp.1, ?_⟩
+  simp only [walk] at hr
+  cases hw : walkFrom t vote c t.hierarchy none with
+  | error e => rw [hw] at hr; cases hr
+  | ok es =>
+    rw [hw] at hr
+    cases hr
+    obtain ⟨h1, h2⟩ := walkFrom_raw hwf hv hpay c t.hierarchy [] none (by simp)
+      (Or.inl ⟨rfl, rfl⟩) es hw
+    intro le hle
+    refine ⟨?_, finishCell_corr es (h2 hch) le hle, finishCell_agg es le hle⟩
+    exact finishCell_pres (fun l e => RawGood nR (t.nodesAt l) e) (fun _ _ _ h => h)
+      (fun _ _ _ h => h) es h1 le hle
+
+/-! ## the tree of the run versus the stored tree -/
+
+/-- how the tree the run votes on (`t`, after `drop_level` / `flatten`) sits in
+the stored tree `t0`: both well-formed, the run's levels are levels of the
+stored tree with the same nodes, and the leaf level is voted on -/
+structure RunTreeOK (t0 t : RawTree) : Prop where
+  wf0 : wfb t0 = true
+  wf : wfb t = true
+  sub : ∀ l ∈ t.hierarchy, l ∈ t0.hierarchy
+  nodes : ∀ l ∈ t.hierarchy, t.nodesAt l = t0.nodesAt l
+  leaf : ∀ ll, t0.leafLevel = some ll → ll ∈ t.hierarchy
+
+/-- `child_to_parent[cl][c]`, when defined, is a node of the level above -/
+theorem childToParent_mem {t : RawTree} {cl : Level} {c pn : Node}
+    (h : t.childToParent cl c = some pn) :
+    ∃ pl, t.parentLevel cl = some pl ∧ pn ∈ t.nodesAt pl := by
+  simp only [RawTree.childToParent] at h
+  cases hp : t.parentLevel cl with
+  | none => rw [hp] at h; cases h
+  | some pl =>
+    rw [hp] at h
+    simp only at h
+    cases hf : (t.level pl).reverse.find? (fun x => x.2.contains c) with
+    | none => rw [hf] at h; cases h
+    | some pc =>
+      rw [hf] at h
+      simp only [Option.map_some, Option.some.injEq] at h
+      subst h
+      have hmem : pc ∈ t.level pl := List.mem_reverse.mp (List.mem_of_find?_eq_some hf)
+      exact ⟨pl, rfl, List.mem_map.mpr ⟨pc, hmem, rfl⟩⟩
+
+/-- induction up a chain of levels (`xs` = the hierarchy, leaf level first) -/
+theorem chain_up (P : Level → Prop) : ∀ (xs : List Level),
+    (∀ l, xs.head? = some l → P l) → (∀ cp ∈ pairsOf xs, P cp.1 → P cp.2) → ∀ l ∈ xs, P l
+  | [], _, _ => by simp
+  | [c], h0, _ => by
+    intro l hl
+    simp only [List.mem_singleton] at hl
+    subst hl; exact h0 l rfl
+  | c :: p :: rest, h0, hstep => by
+    have hpairs : pairsOf (c :: p :: rest) = (c, p) :: pairsOf (p :: rest) := by simp [pairsOf]
+    have hc : P c := h0 c rfl
+    have hp : P p := hstep (c, p) (by rw [hpairs]; simp) hc
+    have ih := chain_up P (p :: rest) (fun l hl => by simp at hl; subst hl; exact hp)
+      (fun cp hm => hstep cp (by rw [hpairs]; exact List.mem_cons_of_mem _ hm))
+    intro l hl
+    rcases List.mem_cons.mp hl with h | h
+    · subst h; exact hc
+    · exact ih l h
+
+/-- the flagged walk of a cell, level by level -/
+theorem flagged_lookup {κ} {t : RawTree} {vote : Oracle κ} {nR : Nat} (hwf : wfb t = true)
+    (hv : VoteOK t vote) (hpay : PayloadOK nR t vote) (hch : hasChoice t = true)
+    (id : CellId) (c : κ) :
+    (∀ l ∈ t.hierarchy, ∃ e,
+      (markDirect t.hierarchy (mkRecord t vote id c)).levels.lookup l = some e ∧
+        Good nR (t.nodesAt l) true e) ∧
+    ∀ l, l ∉ t.hierarchy →
+      (markDirect t.hierarchy (mkRecord t vote id c)).levels.lookup l = none := by
+  obtain ⟨hkeys, hall⟩ := walk_good hwf hv hpay hch c
+  refine ⟨?_, ?_⟩
+  · intro l hl
+    rw [markDirect_lookup]
+    have hsome : ((mkRecord t vote id c).levels.lookup l).isSome = true :=
+      lookup_isSome_of_keys _ l (by simp only [mkRecord]; rw [hkeys]; exact hl)
+    cases hlk : (mkRecord t vote id c).levels.lookup l with
+    | none => rw [hlk] at hsome; cases hsome
+    | some e0 =>
+      have hmem : (l, e0) ∈ walkD t vote c := mem_of_lookup _ l e0 hlk
+      obtain ⟨⟨hnode, hru⟩, hcorr, hagg⟩ := hall (l, e0) hmem
+      have hc : t.hierarchy.contains l = true := List.contains_iff_mem.mpr hl
+      refine ⟨_, rfl, ?_⟩
+      simp only [flagDirect, hc, if_true]
+      exact ⟨hnode, hcorr, hagg, rfl, fun _ => hru, fun h => by cases h⟩
+  · intro l hl
+    apply lookup_none_of_not_keys
+    rw [record_keys hwf hv id c]
+    exact hl
+
+/-- **one record of the output.**  Whatever `backfill_assignments` returns for
+the flagged walk of a cell binds every level of the stored hierarchy: a voted
+level (one of the run's tree) to a `directly_assigned = True` dict with
+runner-up lists, any other level to an inferred dict (`False`, no runner-up
+keys, numbers copied from below), each assignment a node of its level in the
+stored tree. -/
+theorem cellResult_good {κ} {t0 t : RawTree} {vote : Oracle κ} {nR : Nat} (rt : RunTreeOK t0 t)
+    (hv : VoteOK t vote) (hpay : PayloadOK nR t vote) (hch : hasChoice t = true)
+    (id : CellId) (c : κ) (o : Record) (h : cellResult t0 t vote id c = .ok o) :
+    o.cellId = id ∧
+    ∀ l ∈ t0.hierarchy, ∃ e, o.levels.lookup l = some e ∧
+      Good nR (t0.nodesAt l) (t.hierarchy.contains l) e := by
+  have hnd0 := wfb_nodup_hierarchy rt.wf0
+  obtain ⟨hin, hout⟩ := flagged_lookup rt.wf hv hpay hch id c
+  unfold cellResult at h
+  rw [dropCells_hierarchy] at h
+  have hhead : ∀ l, t0.hierarchy.reverse.head? = some l →
+      ((markDirect t.hierarchy (mkRecord t vote id c)).levels.lookup l).isSome = true := by
+    intro l hl
+    rw [List.head?_reverse] at hl
+    obtain ⟨e, he, _⟩ := hin l (rt.leaf l hl)
+    rw [he]; rfl
+  obtain ⟨hid, hkeep, _, _, hinf⟩ := backfillPairs_ok_spec t0.dropCells t0.hierarchy.reverse _ o
+    (nodup_reverse hnd0) hhead h
+  refine ⟨by rw [hid]; rfl, ?_⟩
+  -- a voted level keeps its dict
+  have hvoted : ∀ l ∈ t.hierarchy, ∃ e, o.levels.lookup l = some e ∧
+      Good nR (t0.nodesAt l) (t.hierarchy.contains l) e := by
+    intro l hl
+    obtain ⟨e, he, hg⟩ := hin l hl
+    refine ⟨e, hkeep l e he, ?_⟩
+    rw [List.contains_iff_mem.mpr hl, ← rt.nodes l hl]
+    exact hg
+  intro l hl
+  refine chain_up (fun l => ∃ e, o.levels.lookup l = some e ∧
+    Good nR (t0.nodesAt l) (t.hierarchy.contains l) e) t0.hierarchy.reverse ?_ ?_ l
+    (List.mem_reverse.mpr hl)
+  · intro x hx
+    rw [List.head?_reverse] at hx
+    exact hvoted x (rt.leaf x hx)
+  · rintro ⟨cl, pl⟩ hm ⟨ec, hec, hgc⟩
+    by_cases hpl : pl ∈ t.hierarchy
+    · exact hvoted pl hpl
+    · obtain ⟨ec', pn, hec', hq, hpe⟩ := hinf (cl, pl) hm (hout pl hpl)
+      simp only at hec' hq hpe hec
+      rw [hec] at hec'
+      cases hec'
+      rw [childToParent_dropCells hnd0] at hq
+      obtain ⟨a, b, hs⟩ := (mem_pairsOf_reverse_iff cl pl t0.hierarchy).mp hm
+      obtain ⟨pl', hpl', hmem⟩ := childToParent_mem hq
+      rw [parentLevel_of_split hnd0 hs] at hpl'
+      cases hpl'
+      have hcf : t.hierarchy.contains pl = false := by
+        cases hb : t.hierarchy.contains pl with
+        | false => rfl
+        | true => exact absurd (List.contains_iff_mem.mp hb) hpl
+      refine ⟨_, hpe, ?_⟩
+      rw [hcf]
+      exact ⟨hmem, hgc.corr, hgc.agg, rfl, fun h => (by cases h), fun _ => rfl⟩
+
+/-! ### `RunTreeOK` for every tree `_run_mapping` can vote on -/
+
+theorem runTreeOK_plain {t0 : RawTree} (hwf : wfb t0 = true) : RunTreeOK t0 t0 :=
+  ⟨hwf, hwf, fun _ h => h, fun _ _ => rfl, fun _ h => List.mem_of_getLast? h⟩
+
+theorem RunTreeOK.trans {t0 t1 t2 : RawTree} (h1 : RunTreeOK t0 t1) (h2 : RunTreeOK t1 t2)
+    (hleaf : t1.leafLevel = t0.leafLevel) : RunTreeOK t0 t2 :=
+  ⟨h1.wf0, h2.wf, fun l hl => h1.sub l (h2.sub l hl),
+   fun l hl => by rw [h2.nodes l hl, h1.nodes l (h2.sub l hl)],
+   fun ll hl => h2.leaf ll (by rw [hleaf]; exact hl)⟩
+
+theorem runTreeOK_flatten {t0 : RawTree} (hwf : wfb t0 = true) : RunTreeOK t0 t0.flatten := by
+  cases hl : t0.leafLevel with
+  | none =>
+    have : t0.flatten = t0 := by simp [RawTree.flatten, hl]
+    rw [this]; exact runTreeOK_plain hwf
+  | some ll =>
+    have hnd := wfb_nodup_hierarchy hwf
+    have hfh : t0.flatten.hierarchy = [ll] := by simp only [RawTree.flatten, hl]
+    refine ⟨hwf, wfb_flatten hwf hl, ?_, ?_, ?_⟩
+    · intro l h
+      rw [hfh, List.mem_singleton] at h
+      subst h; exact List.mem_of_getLast? hl
+    · intro l h
+      rw [hfh, List.mem_singleton] at h
+      subst h; exact flatten_nodesAt_leaf hnd hl
+    · intro ll' h
+      have : some ll = some ll' := hl.symm.trans h
+      cases this
+      rw [hfh]; simp
+
+/-- `drop_level` never removes the leaf level -/
+theorem dropLevel_not_leaf {t t' : RawTree} {l : Level} (h : t.dropLevel l = .ok t') :
+    t.leafLevel ≠ some l := by
+  unfold RawTree.dropLevel at h
+  cases hraw : t.dropLevelRaw l with
+  | error e => rw [hraw] at h; cases h
+  | ok t1 =>
+    unfold RawTree.dropLevelRaw at hraw
+    split at hraw
+    · cases hraw
+    · cases hidx : t.levelIdx l with
+      | none => simp only [hidx] at hraw; cases hraw
+      | some idx =>
+        simp only [hidx] at hraw
+        split at hraw
+        · cases hraw
+        · rename_i hnl
+          intro he
+          apply hnl
+          simp [he]
+
+/-- a level that `drop_level` accepts sits strictly above another level -/
+theorem dropLevel_split {t t' : RawTree} {l : Level} (h : t.dropLevel l = .ok t') :
+    ∃ pre cl post, t.hierarchy = pre ++ l :: cl :: post := by
+  obtain ⟨hmem, _⟩ := dropLevel_hierarchy h
+  obtain ⟨pre, rest, hs⟩ := List.append_of_mem hmem
+  cases rest with
+  | nil =>
+    exfalso
+    apply dropLevel_not_leaf h
+    simp [RawTree.leafLevel, hs]
+  | cons cl post => exact ⟨pre, cl, post, hs⟩
+
+theorem runTreeOK_drop {t0 t' : RawTree} {l : Level} (hwf : wfb t0 = true)
+    (h : t0.dropLevel l = .ok t') : RunTreeOK t0 t' ∧ t'.leafLevel = t0.leafLevel := by
+  have hnd := wfb_nodup_hierarchy hwf
+  obtain ⟨pre, cl, post, hs⟩ := dropLevel_split h
+  obtain ⟨_, hh'⟩ := dropLevel_hierarchy h
+  have hl_pre : l ∉ pre := by
+    intro hm
+    rw [hs] at hnd
+    exact (List.nodup_append.mp hnd).2.2 l hm l (by simp) rfl
+  have hh'' : t'.hierarchy = pre ++ cl :: post := by
+    rw [hh', hs, List.erase_append_right _ hl_pre, List.erase_cons_head]
+  have hmem0 : ∀ x, x ∈ t'.hierarchy → x ≠ l ∧ x ∈ t0.hierarchy := by
+    intro x hx; rw [hh'] at hx; exact hnd.mem_erase_iff.mp hx
+  have hleaf : t'.leafLevel = t0.leafLevel := by
+    simp only [RawTree.leafLevel, hh'', hs, List.getLast?_append, List.getLast?_cons_cons]
+  refine ⟨⟨hwf, wfb_dropLevel hwf h hs, fun x hx => (hmem0 x hx).2, ?_, ?_⟩, hleaf⟩
+  · intro x hx
+    exact drop_nodesAt h (post := cl :: post) hs hnd (hmem0 x hx).1
+  · intro ll hll
+    rw [← hleaf] at hll
+    exact List.mem_of_getLast? hll
+
+/-- **every tree `_run_mapping` can hand to the election** (`drop_level` of an
+absent level is a no-op, of a present non-leaf level `_drop_level`; then
+`flatten` if asked) relates to the stored tree as `RunTreeOK` demands -/
+theorem runTreeOK_of_runTree {t0 t : RawTree} {cfg : Config} (hwf : wfb t0 = true)
+    (h : runTree t0 cfg = .ok t) : RunTreeOK t0 t := by
+  unfold runTree at h
+  -- the tree after the `drop_level` block
+  have key : ∀ t1, RunTreeOK t0 t1 → t1.leafLevel = t0.leafLevel →
+      RunTreeOK t0 (if cfg.flatten then t1.flatten else t1) := by
+    intro t1 h1 hl
+    cases cfg.flatten with
+    | false => exact h1
+    | true =>
+      refine h1.trans (runTreeOK_flatten h1.wf) hl
+  cases hd : cfg.dropLevel with
+  | none =>
+    simp only [hd] at h
+    cases h
+    exact key t0 (runTreeOK_plain hwf) rfl
+  | some l =>
+    simp only [hd] at h
+    by_cases hc : t0.hierarchy.contains l = true
+    · simp only [hc, if_true] at h
+      cases hdl : t0.dropLevel l with
+      | error e => rw [hdl] at h; cases h
+      | ok t' =>
+        rw [hdl] at h
+        simp only at h
+        cases h
+        obtain ⟨h1, h2⟩ := runTreeOK_drop hwf hdl
+        exact key t' h1 h2
+    · simp only [hc] at h
+      cases h
+      exact key t0 (runTreeOK_plain hwf) rfl
+
+/-! ## from the records to `Output.outInv` -/
+
+theorem lookup_filterMap_none {β γ} (m : List (Nat × β)) (f : β → γ) :
+    ∀ (h : List Nat) (l : Nat), l ∉ h →
+      (h.filterMap (fun k => (m.lookup k).map (fun e => (k, f e)))).lookup l = none
+  | [], _, _ => rfl
+  | k :: ks, l, hl => by
+    have hne : l ≠ k := fun he => hl (by simp [he])
+    have hl' : l ∉ ks := fun hm => hl (List.mem_cons_of_mem _ hm)
+    have hb : (l == k) = false := by simpa using hne
+    simp only [List.filterMap_cons]
+    cases m.lookup k with
+    | none => exact lookup_filterMap_none m f ks l hl'
+    | some e =>
+      simp only [Option.map_some, List.lookup, hb]
+      exact lookup_filterMap_none m f ks l hl'
+
+/-- looking a level up in the re-listed dict = looking it up in the dict -/
+theorem lookup_filterMap_keys {β γ} (m : List (Nat × β)) (f : β → γ) :
+    ∀ (h : List Nat), h.Nodup → ∀ l ∈ h,
+      (h.filterMap (fun k => (m.lookup k).map (fun e => (k, f e)))).lookup l = (m.lookup l).map f
+  | [], _, _, hl => by cases hl
+  | k :: ks, hnd, l, hl => by
+    have hnd' := List.nodup_cons.mp hnd
+    simp only [List.filterMap_cons]
+    by_cases he : l = k
+    · subst he
+      cases hk : m.lookup l with
+      | none =>
+        simp only [Option.map_none]
+        exact lookup_filterMap_none m f ks l hnd'.1
+      | some e => simp [List.lookup]
+    · have hb : (l == k) = false := by simpa using he
+      have hl' : l ∈ ks := by
+        rcases List.mem_cons.mp hl with h | h
+        · exact absurd h he
+        · exact h
+      cases m.lookup k with
+      | none => exact lookup_filterMap_keys m f ks hnd'.2 l hl'
+      | some e =>
+        simp only [Option.map_some, List.lookup, hb]
+        exact lookup_filterMap_keys m f ks hnd'.2 l hl'
+
+theorem keys_filterMap_all {β γ} (m : List (Nat × β)) (f : β → γ) :
+    ∀ (h : List Nat), (∀ k ∈ h, (m.lookup k).isSome = true) →
+      (h.filterMap (fun k => (m.lookup k).map (fun e => (k, f e)))).map (·.1) = h
+  | [], _ => rfl
+  | k :: ks, hall => by
+    have hk := hall k (by simp)
+    simp only [List.filterMap_cons]
+    cases hlk : m.lookup k with
+    | none => rw [hlk] at hk; cases hk
+    | some e =>
+      simp only [Option.map_some, List.map_cons]
+      rw [keys_filterMap_all m f ks (fun x hx => hall x (List.mem_cons_of_mem _ hx))]
+
+theorem nodupB_of_nodup : ∀ (xs : List Nat), xs.Nodup → Output.nodupB xs = true
+  | [], _ => rfl
+  | x :: xs, h => by
+    have h' := List.nodup_cons.mp h
+    simp only [Output.nodupB, Bool.and_eq_true, Bool.not_eq_true']
+    exact ⟨by simpa using h'.1, nodupB_of_nodup xs h'.2⟩
+
+theorem levelsOK_of_forall (T : Output.Tree) (nR : Nat) (first : Output.Record) :
+    ∀ (ls : List (Output.Lvl × Output.LevelRec)),
+      (∀ x ∈ ls, ∃ nodes f, T.nodesAt x.1 = some nodes ∧ first.levels.lookup x.1 = some f ∧
+        Output.levelOK nodes nR f.direct x.2 = true) →
+      Output.levelsOK T nR first ls = true
+  | [], _ => rfl
+  | (l, lr) :: rest, h => by
+    obtain ⟨nodes, f, h1, h2, h3⟩ := h (l, lr) (by simp)
+    simp only [Output.levelsOK, h1, h2, h3, Bool.true_and]
+    exact levelsOK_of_forall T nR first rest (fun x hx => h x (List.mem_cons_of_mem _ hx))
+
+/-- the node list of a level, read from the embedded tree -/
+theorem embedded_nodesAt {t0 : RawTree} (hwf : wfb t0 = true) (nm : NameMapper)
+    (hm : HierarchyMapper) (dl : Option Level) (fl : Bool) {l : Level} (hl : l ∈ t0.hierarchy) :
+    (Output.embeddedTree (toTree t0 nm hm) dl fl).nodesAt l = some (t0.nodesAt l) := by
+  simp only [Output.embeddedTree, Output.dropCells_nodesAt]
+  have hne := wfb_nodesAt_nonempty hwf hl
+  simp only [Output.Tree.nodesAt, toTree, RawTree.nodesAt, RawTree.level] at hne ⊢
+  cases hlk : t0.levels.lookup l with
+  | none => rw [hlk] at hne; simp at hne
+  | some m => simp
+
+theorem embedded_hierarchy (t0 : RawTree) (nm : NameMapper) (hm : HierarchyMapper)
+    (dl : Option Level) (fl : Bool) :
+    (Output.embeddedTree (toTree t0 nm hm) dl fl).hierarchy = t0.hierarchy := rfl
+
+/-- records that bind every stored level to a `Good` dict, with a flag that
+depends on the level only, make a blob that satisfies `outInv` -/
+theorem outInv_of_records (t0 : RawTree) (cfg : Config) (nm : NameMapper) (hm : HierarchyMapper)
+    (nR : Nat) (flag : Level → Bool) (out : List Record) (hne : out ≠ [])
+    (hwf0 : wfb t0 = true)
+    (hgood : ∀ o ∈ out, ∀ l ∈ t0.hierarchy, ∃ e, o.levels.lookup l = some e ∧
+      Good nR (t0.nodesAt l) (flag l) e) :
+    Output.outInv (toBlob t0 cfg nm hm nR out) = true := by
+  have hnd0 := wfb_nodup_hierarchy hwf0
+  cases out with
+  | nil => exact absurd rfl hne
+  | cons first rest =>
+    simp only [Output.outInv, toBlob, List.map_cons, embedded_hierarchy, Bool.and_eq_true,
+      List.all_eq_true, beq_iff_eq]
+    refine ⟨nodupB_of_nodup _ hnd0, ?_⟩
+    intro r' hr'
+    have hr'' : ∃ o ∈ first :: rest, r' = toRecord t0.hierarchy o := by
+      rcases List.mem_cons.mp hr' with h | h
+      · exact ⟨first, by simp, h⟩
+      · obtain ⟨o, ho, rfl⟩ := List.mem_map.mp h
+        exact ⟨o, List.mem_cons_of_mem _ ho, rfl⟩
+    obtain ⟨o, ho, rfl⟩ := hr''
+    refine ⟨?_, ?_⟩
+    · exact keys_filterMap_all o.levels toLevelRec t0.hierarchy
+        (fun k hk => by obtain ⟨e, he, _⟩ := hgood o ho k hk; rw [he]; rfl)
+    · apply levelsOK_of_forall
+      intro x hx
+      simp only [toRecord, List.mem_filterMap] at hx
+      obtain ⟨l, hl, hx⟩ := hx
+      obtain ⟨e, he, hg⟩ := hgood o ho l hl
+      rw [he] at hx
+      simp only [Option.map_some, Option.some.injEq] at hx
+      subst hx
+      obtain ⟨e0, he0, hg0⟩ := hgood first (by simp) l hl
+      refine ⟨t0.nodesAt l, toLevelRec e0, embedded_nodesAt hwf0 nm hm _ _ hl, ?_, ?_⟩
+      · simp only [toRecord]
+        rw [lookup_filterMap_keys first.levels toLevelRec t0.hierarchy hnd0 l hl, he0]
+        rfl
+      · have hd : (toLevelRec e0).direct = flag l := by
+          simp only [toLevelRec, hg0.direct, Option.getD_some]
+        rw [hd]
+        exact levelOK_of_good hg
+
+theorem mapM_mem {α β ε} (f : α → Except ε β) : ∀ (rs : List α) (out : List β),
+    rs.mapM f = .ok out → out.length = rs.length ∧ ∀ o ∈ out, ∃ r ∈ rs, f r = .ok o
+  | [], out, h => by simp at h; cases h; simp
+  | a :: rs, out, h => by
+    simp only [List.mapM_cons] at h
+    cases h1 : f a with
+    | error e => rw [h1] at h; cases h
+    | ok a' =>
+      cases h2 : rs.mapM f with
+      | error e => rw [h1, h2] at h; cases h
+      | ok out' =>
+        rw [h1, h2] at h
+        cases h
+        obtain ⟨ih1, ih2⟩ := mapM_mem f rs out' h2
+        refine ⟨by simp [ih1], ?_⟩
+        intro o ho
+        rcases List.mem_cons.mp ho with h | h
+        · subst h; exact ⟨a, by simp, h1⟩
+        · obtain ⟨r, hr, hfr⟩ := ih2 o h
+          exact ⟨r, List.mem_cons_of_mem _ hr, hfr⟩
+
+/-- every record of a successful pipeline run is the finished record
+(`cellResult`) of one of the query cells -/
+theorem pipeline_records {κ} (t0 t : RawTree) (cfg : Config) (vote : Oracle κ)
+    (ids : List CellId) (cells : List κ) (order : List Nat)
+    (hrun : runTree t0 cfg = .ok t) (hwf : wfb t = true) (hv : VoteOK t vote)
+    (hlen : ids.length = cells.length) (hnd : ids.Nodup)
+    (hproc : 1 ≤ cfg.nProc) (hcs : 1 ≤ cfg.chunkSize)
+    (horder : order.Perm (List.range
+      (chunks cells.length (effChunk cells.length cfg.nProc cfg.chunkSize)).length))
+    (out : List Record) (hout : mapPipeline t0 cfg vote ids cells order = .ok out) :
+    out.length = cells.length ∧
+    ∀ o ∈ out, ∃ id c, cellResult t0 t vote id c = .ok o := by
+  rw [mapPipeline_spec t0 t cfg vote ids cells order hrun hwf hv hlen hnd hproc hcs horder] at hout
+  unfold backfill at hout
+  obtain ⟨h1, h2⟩ := mapM_mem _ _ out hout
+  refine ⟨by simpa [hlen] using h1, ?_⟩
+  intro o ho
+  obtain ⟨r, hr, hfr⟩ := h2 o ho
+  obtain ⟨r0, hr0, rfl⟩ := List.mem_map.mp hr
+  obtain ⟨id, c, rfl⟩ := mem_zipWith_exists _ ids cells r0 hr0
+  exact ⟨id, c, hfr⟩
+
+/-- **The output of the mapping loop satisfies the invariant of the
+serialisers.**  Stored tree `t0` well-formed (`wfb`); `t` the tree the run
+votes on — any `drop_level` (absent, top or middle level), `flatten` on or off,
+or both; the oracle returns children (`VoteOK`) with a payload as `PayloadOK`
+describes; the run's tree offers a choice on every way down (`hasChoice`,
+otherwise `avg_correlation` is legitimately `null`); at least one cell,
+distinct ids; any chunk size ≥ 1, worker count ≥ 1 and gather order.  Then
+whatever `mapPipeline` returns converts to a blob with `outInv`. -/
+theorem outInv_of_pipeline {κ} (t0 t : RawTree) (cfg : Config) (vote : Oracle κ)
+    (nm : NameMapper) (hm : HierarchyMapper) (nR : Nat)
+    (ids : List CellId) (cells : List κ) (order : List Nat)
+    (hwf0 : wfb t0 = true) (hrun : runTree t0 cfg = .ok t)
+    (hv : VoteOK t vote) (hpay : PayloadOK nR t vote) (hch : hasChoice t = true)
+    (hcells : cells ≠ []) (hlen : ids.length = cells.length) (hnd : ids.Nodup)
+    (hproc : 1 ≤ cfg.nProc) (hcs : 1 ≤ cfg.chunkSize)
+    (horder : order.Perm (List.range
+      (chunks cells.length (effChunk cells.length cfg.nProc cfg.chunkSize)).length))
+    (out : List Record) (hout : mapPipeline t0 cfg vote ids cells order = .ok out) :
+    Output.outInv (toBlob t0 cfg nm hm nR out) = true := by
+  have rt := runTreeOK_of_runTree hwf0 hrun
+  obtain ⟨hl, hrec⟩ := pipeline_records t0 t cfg vote ids cells order hrun rt.wf hv hlen hnd
+    hproc hcs horder out hout
+  have hne : out ≠ [] := by
+    intro he
+    rw [he] at hl
+    exact hcells (List.eq_nil_of_length_eq_zero hl.symm)
+  apply outInv_of_records t0 cfg nm hm nR (fun l => t.hierarchy.contains l) out hne hwf0
+  intro o ho
+  obtain ⟨id, c, hc⟩ := hrec o ho
+  exact (cellResult_good rt hv hpay hch id c o hc).2
+
 end OutBridge
 end CTM
